@@ -337,6 +337,9 @@ pub fn gen_scen(rng: &mut Rng, _thorough: bool) -> Scen {
             let mut seeds = serde_json::Map::new();
             let mut slow = 0;
             for sd in 0..n { if rng.chance(1, 2) && slow < 3 { slow += 1; seeds.insert(sd.to_string(), json!({"wait": true, "fork": *rng.pick(&["none", "keep", "detach-stdio"]), "fork_ignore_term": rng.chance(1, 2), "ignore_term": rng.chance(1, 2), "value_of_seed": "neg"})); } }
+            // a slow child that closes its own stdout and stderr at once and keeps running: the pipes are at EOF, the
+            // exit is not; it must still be killed at its time limit and counted as rejected
+            for sd in 0..n { if !seeds.contains_key(&sd.to_string()) && slow < 3 && rng.chance(1, 4) { slow += 1; seeds.insert(sd.to_string(), json!({"wait": true, "close_stdio": true, "ignore_term": rng.chance(1, 2), "value_of_seed": "neg"})); } }
             // a slow child whose helper left the process group (setsid) but still holds the output pipe: the helper is not
             // the tool's to kill, and the evaluation must all the same end at its time limit and the run continue
             for sd in 0..n { if !seeds.contains_key(&sd.to_string()) && slow < 3 && rng.chance(1, 4) { slow += 1; seeds.insert(sd.to_string(), json!({"wait": true, "fork": "keep", "fork_setsid": true, "value_of_seed": "neg"})); } }
